@@ -351,6 +351,25 @@ def sparse_one(run, seed, idx, mods):
         mask[:, 0] |= r.random(shape[0]) < 0.6
         mask[0, :] |= r.random(shape[1]) < 0.6
         mask[-1, -1] = True
+    if idx % 4 == 1 and shape[0] >= 6:
+        # empty rows: the pixel stored just before the first pixel of a row then lies two or more rows higher; with the
+        # column alignment "upper group ends in column c, lower group starts in column c+1" the two are neighbours in
+        # memory and in column number but not in the image
+        r3 = rng(seed, "C13", "rowgaps", idx)
+        for i in range(1, shape[0] - 2):
+            if r3.random() < 0.3 and mask[i - 1].any():
+                mask[i, :] = False
+                if r3.random() < 0.5:
+                    mask[i + 1 if i + 2 < shape[0] and r3.random() < 0.5 else i, :] = False
+                c = int(np.flatnonzero(mask[i - 1])[-1])
+                lower = i + 1
+                while lower < shape[0] - 1 and not mask[lower].any() and r3.random() < 0.5:
+                    lower += 1
+                # (patterns meant for the sparse-vs-dense comparison stay off the border)
+                if lower < shape[0] - int(interior) and c + 1 < shape[1] - int(interior) and not mask[i:lower].any():
+                    mask[lower, :c + 1] = False
+                    mask[lower, c + 1] = True
+                    run.count("sparse_row_gap_alignments")
     if mask.sum() == 0:
         mask[shape[0] // 2, shape[1] // 2] = True
     fr = sparseframe.from_data_mask(mask.astype(np.int8), img, {})
